@@ -206,7 +206,7 @@ pub fn normalize(v: &mut [f32]) -> f32 {
     }
     let norm = norm.sqrt();
 
-    if norm > f32::EPSILON {
+    if norm > 0.0 {
         for x in v.iter_mut() {
             *x /= norm;
         }
